@@ -8,6 +8,7 @@ from fractions import Fraction as Fr
 import numpy as np
 
 from harness import common
+from harness.translate import gen as G
 
 PROPERTY = "C19"
 LEAN_MODULES = ["SigpyVerif.Props.C19"]
@@ -17,8 +18,26 @@ THEOREMS = ["SigpyVerif.C19." + t for t in [
     "sim_norm_invariant", "sim_unitary_abrm", "sim_unitary_hp", "sim_unitary_blochsim", "sim_unitary_ptx",
     "zero_rf_abrm", "zero_rf_hp", "zero_rf_blochsim", "zero_rf_ptx", "sim_append", "ck_assoc", "ck_sim_linear",
     "sim_compose_abrm", "sim_compose_ptx", "hp_sim_linear", "sim_compose_hp",
+    "ckStep_def", "abrmNdStep_eq", "hpStep_def", "bsStep_def", "ptxStep_def", "ptxOut_def", "finalPhase_def",
+    "blochsimFinal_eq", "peelS_def", "bs_sim_linear", "sim_compose_blochsim",
+    "ckParams_valid", "ndParams_valid", "hpParams_valid", "bsParams_valid", "ptxParams_valid", "abrm_balanced_norm",
+    "abrmSim_eq", "abrmNdSim_eq", "abrmHpSim_eq", "blochsimSim_eq", "abrmPtxSim_eq",
+    "gen_unitary_abrm", "gen_unitary_abrm_nd", "gen_unitary_abrm_hp", "gen_unitary_blochsim", "gen_unitary_abrm_ptx",
+    "gen_zero_rf_abrm", "gen_zero_rf_abrm_nd", "gen_zero_rf_abrm_hp", "gen_zero_rf_blochsim", "gen_zero_rf_abrm_ptx",
+    "gen_compose_abrm", "gen_compose_abrm_nd", "gen_compose_abrm_hp", "gen_compose_blochsim", "gen_compose_abrm_ptx",
+    "zprod_hpParams", "zprod_bsParams", "hp_frame_exponents", "bs_frame_exponents", "exp_frame", "normSq_exp_of_re_zero",
+    "hp_frame_factor", "bs_frame_factor", "zfHp_append", "zfBs_append", "gen_compose_abrm_hp_code", "gen_compose_blochsim_code",
     "peel_cs_unit", "peel_norm", "peel_bt_last_zero", "peel_at_first_zero", "peel_step_partial",
+    "peel_def", "zipWith_zipWith_same", "zipWith_fst", "zipWith_snd", "peel_fwdStep", "fwdStep_last", "fwdRev_inv",
+    "peelS_fwd", "ab2rf_inverts_forward", "ab2rf_cj_formula", "rot_of_real", "RotR.rot", "ab2rf_code_cj",
+    "ab2rf_inverts_forward_code", "forall_mem_map",
 ]]
+
+
+def translate(ctx):
+    G.regenerate(ctx, ["Sim"])
+
+
 SIMS = ["abrm", "abrm_nd", "abrm_hp", "blochsim", "abrm_ptx"]
 UTOL = 1e-9        # the property's unitarity / composition tolerance
 CTOL = 1e-12       # correspondence: real code vs exact fold of the same float parameters (observed ≤ 1e-14)
@@ -148,7 +167,10 @@ def compose(s1, s2, ptx=False):
     return a2 * a1 - np.conj(b2) * b1, b2 * a1 + np.conj(a2) * b1
 
 
-# ---- per-sample rotation parameters (transcribed from the documented physics), one position -------
+# ---- per-sample atoms (transcribed from the documented physics, independently of the source), one position:
+# cos / sin of the HALF rotation angle, the rotation axis, the unit phase factors.  The Lean side builds
+# av/bv/S/alpha/beta from them with the formulas the translator extracted from the source and runs the generated
+# state update. -------
 def params(c, j):
     n = c["sim"]
     out, zf = [], None
@@ -164,10 +186,8 @@ def params(c, j):
                 phi = np.sqrt(abs(rf[mm]) ** 2 + om ** 2)
                 den = phi + EPS
             nx, ny, nz = rf[mm].real / den, rf[mm].imag / den, om / den
-            av = np.cos(phi / 2) - 1j * nz * np.sin(phi / 2)
-            bv = -1j * (nx + 1j * ny) * np.sin(phi / 2)
-            out += [av, bv]
-        kind = "ck"
+            out += [np.cos(phi / 2), np.sin(phi / 2), nx, ny, nz]
+        kind = n
     elif n in ("abrm_hp", "blochsim"):
         rf = c["rf"]
         acc = 0.0
@@ -177,15 +197,13 @@ def params(c, j):
             else:
                 ph = c["x"][j] @ c["g"][mm, :] if c["g"].ndim > 1 else c["x"][j] * c["g"][mm]
             z = np.exp(-1j * ph)
-            C = np.cos(abs(rf[mm]) / 2)
-            S = 1j * np.exp(1j * np.angle(rf[mm])) * np.sin(abs(rf[mm]) / 2)
-            out += [C, S, z]
+            out += [np.cos(abs(rf[mm]) / 2), np.sin(abs(rf[mm]) / 2), np.exp(1j * np.angle(rf[mm])), z]
         if n == "abrm_hp":
             acc = c["x"][j] * np.sum(c["g"], axis=0) + len(rf) * c["dom0dt"]
         else:
             acc = c["x"][j] @ np.sum(c["g"], 0) if c["g"].ndim > 1 else c["x"][j] * np.sum(c["g"])
         zf = np.exp(1j / 2 * acc)
-        kind = "hp" if n == "abrm_hp" else "bs"
+        kind = n
     else:
         b1, g, dt = c["b1"], c["g"], c["dt"]
         nc = b1.shape[0]
@@ -199,8 +217,8 @@ def params(c, j):
             phi = dt * GAM * np.sqrt(abs(bxy[mm]) ** 2 + bz[mm] ** 2)
             nf = dt * GAM / phi if phi != 0 else 0.0
             nxy, nz = nf * bxy[mm], nf * bz[mm]
-            out += [np.cos(phi / 2) + 1j * nz * np.sin(phi / 2), 1j * np.conj(nxy) * np.sin(phi / 2)]
-        kind = "ptx"
+            out += [np.cos(phi / 2), np.sin(phi / 2), nz, nxy]
+        kind = n
     return kind, out, zf
 
 
@@ -267,9 +285,10 @@ def rf_of(c, s):
 # ---- correspondence ------------------------------------------------------------------------------
 def correspond(ctx):
     ctx.rule = ("simulators: random (rf, gradient, positions, options) per simulator, short waveforms (1..14 samples); the "
-                "per-sample rotation parameters of one position are computed in float from the documented formulas, passed "
-                "to the Lean fold as exact dyadic rationals and the exact result is compared with the real simulator's "
-                "output at 1e-12; ab2rf: exact Gaussian-rational Cayley-Klein polynomial pairs from Pythagorean rotations, "
+                "per-sample atoms of one position (cos/sin of the half angle, rotation axis, unit phases) are computed in "
+                "float from the documented physics, passed as exact dyadic rationals to the whole-simulation definition "
+                "the translator regenerated from the source (Gen.Sim.<simulator>Sim: parameter formulas, state update in "
+                "program order, final rephasing) and its exact result is compared with the real simulator's output at 1e-12; ab2rf: exact Gaussian-rational Cayley-Klein polynomial pairs from Pythagorean rotations, "
                 "the model's exact (cj, sj) per peel vs the real ab2rf at 1e-7; all cases distinct by protocol line")
     rng = ctx.rng
     quick = ctx.tier == "quick"
@@ -334,8 +353,12 @@ def correspond(ctx):
         "the theorems assume the constraints |av|^2+|bv|^2 = 1, C real with C^2+|S|^2 = 1, |z| = 1, which hold up to rounding",
         "numpy cos/sin/exp/sqrt/angle/matmul, sigpy.fft, scipy.signal firls/remez are trusted",
         "b2a/mag2mp (FFT-based minimum-phase factorisation) and dzrf's filter designs are numerical: oracle only",
-        "ab2rf_inverts_forward on coefficient lists is validated (exact-pair stream), not proved; proved: peel_step_partial",
+        "ab2rf_inverts_forward is proved on coefficient lists for pairs built by the forward SLR recursion (fwdRev, in Props); "
+        "that this recursion is what hard-pulse simulation computes (B(e^{iw}) of abrm_hp/blochsim) is the round-trip oracle's job",
     ]
+    ctx.trusted += ["harness/translate/gen_c19.py (statement-by-statement extraction of the five simulators' time loops, "
+                    "parameter formulas, final rephasing and phase exponents, and of ab2rf's sj / peel / slices; the float atoms "
+                    "fed to the generated definitions are computed in harness/props/c19.py from the documented physics)"]
     ctx.traces = ctx.evaluations
 
 
